@@ -1144,6 +1144,8 @@ func runC11(c *Ctx) {
 	c11R15(c)
 	c11R16(c)
 	c11R17(c)
+	c11R18(c)
+	c11R19(c)
 	c10R1As(c, c.R.Rule("R12", "K3 (= C10.R1) the stored status agrees with how the run ended: in the cleanup goroutine of both engines Degraded is written only for a fatal error or a failed recovery, and a stopped status only where the run's error is known not to be fatal", 14))
 	r11 := c.R.Rule("R11", "K5 frozen guarded-by table: pipeline.Instance.status is read and written only under statusLock (the status Start/Stop decide on is never a torn or stale read)", 2)
 	c.guardTable(r11, guardEntry{Rel: pPipe, Struct: "Instance", Mutex: "statusLock", Fields: []string{"status"}, Min: 2})
@@ -1700,6 +1702,7 @@ func runC12(c *Ctx) {
 	c11R6(c)
 	c10R8As(c, c.R.Rule("R8", "K3 (= C10.R8) force-stopped stays stopped: a run parked in the recovery back-off is not restarted once a stop marked it — the marker is read after the wait, every stop that kills the tomb sets it first, and the cleanup goroutine finalizes it as UserStopped", 13))
 	c12R9(c)
+	c12R12As(c, c.R.Rule("R12", "K3 force stop at any instant, also while the recovery restarts the pipeline: StartWithBackoff re-reads a stop marker of the run it belongs to after Start returned (both engines), so a stop accepted for the dead run between the pre-restart check and the publication of the new run is applied to the new run", 2))
 	c10R11As(c, c.R.Rule("R11", "K3 (= C10.R11) a force-stopped run stays stopped: the v1 stop marker set by an accepted (force) stop is never cleared by a later refused graceful stop — Stop clears it only when its own CompareAndSwap set it — and the cleanup goroutine recovers only an unmarked run", 3))
 	c05SharedDest(c, c.R.Rule("R10", "K4/K3 (= C05.R4) v2 no ack of an unhandled record after a force stop: a worker enters a shared destination only under sharedMu and re-checks the poison flag after acquiring it — a worker queued behind the pass the force stop broke never takes that pass's leftover reply as the confirmation of its own record (and acks it to its source)", 6))
 	msgNotDropped(c, c.R.Rule("R7", "K4 (= C06.R10) no message forgotten (v1): a stream node that received a message sends it on, hands it over, acks it or nacks it on every path — also on the ctx.Done() arms a force stop takes — so the source's wait for open messages, and with it the run, always ends", 8))
